@@ -13,6 +13,7 @@ import (
 
 	zz "github.com/AliyunContainerService/terway/internal/zzverif"
 	networkv1beta1 "github.com/AliyunContainerService/terway/pkg/apis/network.alibabacloud.com/v1beta1"
+	"github.com/AliyunContainerService/terway/rpc"
 	"github.com/AliyunContainerService/terway/types"
 	"github.com/AliyunContainerService/terway/types/daemon"
 )
@@ -163,4 +164,38 @@ func zzCleanRuntimeNode(n int) {
 		}
 	}
 	zz.Reach("saved")
+}
+
+// C03(c), hand-over from the DEL handler to the IPAM backend: the teardown is
+// reported for the pod instance whose sandbox is torn down - the UID recorded
+// at ADD time - not for whichever pod carries the name now (a same-named pod
+// may have been created in between: reporting its UID would mark a live pod
+// as deleted and leave the old one unreported).
+// zz:noreplay Manager.Allocate/Release are summarised through engine-side overrides
+func ZZ_C03_del_reports_recorded_instance() {
+	svc, w, kc, st := zzService(daemon.ModeENIMultiIP)
+	svc.ipamType = types.IPAMTypeCRD
+	w.noReleaseFaults = true
+	now := zzPodInfo("p0")
+	now.PodUID = zz.OneOf("api.uid", "uid-old", "uid-new")
+	kc.pod = now
+	recorded := zzPodInfo("p0")
+	recorded.PodUID = zz.OneOf("recorded.uid", "uid-old", "")
+	cid := "c1"
+	st.recs["ns/p0"] = daemon.PodResources{PodInfo: recorded, ContainerID: &cid, Resources: zzLocalRes("eni-1", 5).ToStore()}
+	_, err := svc.ReleaseIP(context.Background(), &rpc.ReleaseIPRequest{K8SPodNamespace: "ns", K8SPodName: "p0", K8SPodInfraContainerId: "c1"})
+	zz.Assert(err == nil, "the DEL succeeds")
+	n := 0
+	for _, e := range w.log {
+		if e.kind != "release" {
+			continue
+		}
+		n++
+		if recorded.PodUID != "" {
+			zz.Assert(e.uid == recorded.PodUID, "the teardown is reported for the pod instance recorded at ADD time, whatever pod carries the name now")
+		} else {
+			zz.Assert(e.uid == now.PodUID, "a record without an instance id falls back to the pod the API server knows")
+		}
+	}
+	zz.Assert(n == 1, "the stored resource is released once")
 }
